@@ -316,6 +316,7 @@ func (p *Path) mapOrder(fr *frame, m *gomap, es []mapEntry) []mapEntry {
 	if !p.mapPerm || len(es) < 2 {
 		return es
 	}
+	p.note("map order chosen (%d entries) in %s", len(es), fr.fn)
 	out := make([]mapEntry, 0, len(es))
 	rest := append([]mapEntry{}, es...)
 	for len(rest) > 0 {
